@@ -17,7 +17,7 @@ PROP = dict(
         "that every goroutine of lal is an instance of a program that CONFORMS to the tables (Sync.conforms / Sync.conformsAccess) is exactly (a)-(d); it is not proved",
         "Go memory model, taken as axioms of Model/Sync.lean: mutual exclusion implies ordering (unlock happens-before next lock), sync/atomic and nazaatomic "
         "operations, sync.Once and channel operations are race-free, `go f()` happens-before f",
-        "Spec/SyncSpec.lean `exempt`: 56 of the 235 tracked fields are written after construction without a common lock (handshake state published through a lock or a go "
+        "Spec/SyncSpec.lean `exempt`: 58 of the 237 tracked fields are written after construction without a common lock (handshake state published through a lock or a go "
         "statement, state owned by one goroutine, RTSP signalling state gated by the atomic Stage, per-object guards of BasicSessionStat, start-up state). "
         "Each entry is a hand-reviewed ASSUMPTION with a category, not a theorem; a new unguarded field is not covered by it and breaks lockset_nonempty",
         "supporting evidence only (NOT the proof): harness/c20scn — a real logic.ServerManager with all protocols under churn, kicks, relay pulls, RTP pubs, "
@@ -45,7 +45,7 @@ META = dict(
          "(lockset_no_race); without close no send/close aborts (no_close_no_abort). About lal, decided by the kernel on tables re-extracted from the source tree on every run: the "
          "acquired-while-holding relation over the 18 lock classes (mutexes and sync.Once) is acyclic (lock_order_acyclic: hls.ServerHandler.mutex < ServerManager.mutex < Group.mutex < "
          "PeriodRecord.mu / dispose onces; rtsp.BaseInSession.mu, gb28181 unpackerMu < Group.mutex); every one of the 235 fields of the 31 tracked structs is atomic/sync/channel-typed, or never "
-         "written after construction, or has a lock common to all its accesses (77 fields), or is in an explicit reviewed exemption list of 56 (lockset_nonempty, summary_sound, "
+         "written after construction, or has a lock common to all its accesses (77 fields), or is in an explicit reviewed exemption list of 58 (lockset_nonempty, summary_sound, "
          "guard_in_every_row, exemptions_current); no channel of lal is ever closed and every blocking send is on a buffered channel, exactly one of them under a mutex and not once-guarded "
          "(no_send_on_closed, blocking_sends_buffered, blocking_send_under_lock_partial); no function returns holding a lock. Instantiations for all threads that conform to the tables: "
          "lal_no_lock_deadlock, lal_lock_progress, lal_no_race_on_guarded_fields, lal_no_abort_on_closed_channel. Level is 'other', not 'proof': the link from lal's goroutines to 'conforming "
